@@ -284,10 +284,23 @@ def g_quiesce(rng, i, **kw):
     scripts = scen.gen_scripts(rng, fl, kind, rng.choice([6, 10, 16]), allow_block=False, allow_convert=False)
     # survivors keep their handles for the probe
     val = 900
+    # sender or receiver: inherited from the handle it was cloned / added from
+    role = {0: "s", 1: "r"}
+    changed = True
+    while changed:
+        changed = False
+        for a in sorted(scripts):
+            if a not in role:
+                continue
+            for c in scripts[a]:
+                if c.startswith(("clone:", "addstream:")):
+                    b = int(c.split(":")[1])
+                    if b not in role:
+                        role[b] = role[a]; changed = True
     for a in sorted(scripts):
         sc = scripts[a]
         ends = sc and sc[-1] in ("drop", "unsub")
-        is_sender = any(c.startswith(("send", "ssend", "asend", "pollc")) for c in sc) or a == 0
+        is_sender = role.get(a) == "s"
         keep = rng.random() < 0.7 or a in (0, 1)
         sc2 = [c for c in sc if not c.startswith(("asend", "apoll"))]
         if ends and keep:
@@ -469,7 +482,7 @@ def nontrivial(pid, h):
     return switches >= 3
 
 # ---------------------------------------------------------------- known findings
-def known_class(pid, h, known):
+def known_class(pid, h, known, vs=()):
     """Is a hit on this trace explained by a listed finding?  Each class is a predicate on the trace,
     as narrow as the defect."""
     for kf in known.get("findings", []):
@@ -479,6 +492,8 @@ def known_class(pid, h, known):
         if c == "F11" and h.kc_f11:
             return kf
         if c == "F12" and h.scn is not None and h.scn.fl == "M" and h.max_groups >= 2:
+            return kf
+        if c == "F14" and vs and all(v.get("pin_refusal") for v in vs):
             return kf
     return None
 
